@@ -11,6 +11,7 @@
  *   policy deny|allow|echo|fixed=[str]|raise|raiseon=[path]|odd=[array|emptyarray|float|float0|object|neg|two]
  *                                              master policy for valid_read / valid_write
  *   fx <efun> [a] [b]                          fresh fixture, then /c15/obj->do_efun (efun, a, b)
+ *   es [file] c1,c2,...                       fresh fixture, editing session (see ed_session ())
  *   inc [basefile] [name]                      fresh fixture, basefile := `#include "name"`, load it
  *   inh [basefile] [name]                      fresh fixture, basefile := `inherit "name";`, load it
  *   ld [name]                                  fresh fixture, load_object (name)
@@ -458,6 +459,10 @@ static void verdict_text (const char *s, char *out, size_t n)
     snprintf (out, n, "1");
   else if (!strcmp (pol_kind, "echo"))
     snprintf (out, n, "=[%s]", s);
+  else if (!strcmp (pol_kind, "ro") || !strcmp (pol_kind, "ropath"))
+    snprintf (out, n, "1");	/* the unit-style call asks with writeflg = 0 */
+  else if (!strcmp (pol_kind, "wo"))
+    snprintf (out, n, "0");
   else if (!strcmp (pol_kind, "raise"))
     snprintf (out, n, "raise");
   else if (!strcmp (pol_kind, "raiseon"))
@@ -724,6 +729,58 @@ static void ed_do (object_t * ob, const char *cmd0, const char *arg)
     }
 }
 
+/* an editing session: ed (file) and then the commands c1,c2,... (a:<text> | e[:name] | E[:name] | f[:name] |
+ * r[:name] | w[:name] | W[:name] | x | q | Q); every command that is executed is announced as
+ * `call ed <who> [<command>] [<argument>]`; a silent "Q" ends whatever is left of the session */
+static void ed_session (object_t * ob, const char *file, char *cmds)
+{
+  char *a[3];
+  char *save, *c;
+  if (!ob->interactive)
+    create_test_interactive (ob);
+#ifdef O_IS_WIZARD
+  ob->flags |= O_IS_WIZARD;	/* unrestricted ed: file names are allowed in commands */
+#endif
+  fs_armed = 1;
+  if (!ob->interactive->ed_buffer)
+    {
+      vh_out ("call ed /c15/obj [ed] [%s]", file);
+      a[0] = (char *) "ed";
+      a[1] = (char *) file;
+      a[2] = (char *) "";
+      command_giver = ob;
+      vh_apply_str (ob, "do_efun", 3, a, 0, 0);
+    }
+  for (c = strtok_r (cmds, ",", &save); c; c = strtok_r (0, ",", &save))
+    {
+      char *arg = strchr (c, ':');
+      if (arg)
+	*arg++ = 0;
+      else
+	arg = (char *) "";
+      if (!ob->interactive || !ob->interactive->ed_buffer)
+	break;
+      vh_out ("call ed /c15/obj [%s] [%s]", c, arg);
+      if (!strcmp (c, "a"))
+	{
+	  ed_do (ob, "a", "");
+	  ed_do (ob, "", arg);
+	  ed_do (ob, ".", "");
+	}
+      else if (arg[0])
+	{
+	  char pre[8];
+	  snprintf (pre, sizeof pre, "%s ", c);
+	  ed_do (ob, pre, arg);
+	}
+      else
+	ed_do (ob, c, "");
+    }
+  ed_do (ob, "Q", "");
+  fs_armed = 0;
+  command_giver = 0;
+}
+
 static int c15_cmd (char *line)
 {
   char copy[8192];
@@ -737,7 +794,8 @@ static int c15_cmd (char *line)
       return 1;
     }
   if (strncmp (line, "u", 1) && strncmp (line, "policy ", 7) && strncmp (line, "fx ", 3)
-      && strncmp (line, "inc ", 4) && strncmp (line, "inh ", 4) && strncmp (line, "ld ", 3))
+      && strncmp (line, "inc ", 4) && strncmp (line, "inh ", 4) && strncmp (line, "ld ", 3)
+      && strncmp (line, "es ", 3))
     return 0;
   snprintf (copy, sizeof copy, "%s", line);
   int n = vh_split (copy, tok, 16);
@@ -807,6 +865,16 @@ static int c15_cmd (char *line)
 	}
       return 1;
     }
+  if (!strcmp (tok[0], "es") && (n == 2 || n == 3))
+    {
+      object_t *ob = the_obj ();
+      char none[1] = "";
+      if (!ob)
+	return 1;
+      fixture ();
+      ed_session (ob, unbr (tok[1]), n == 3 ? tok[2] : none);
+      return 1;
+    }
   if (!strcmp (tok[0], "fx") && n >= 3 && n <= 4)
     {
       char *a[3];
@@ -820,30 +888,21 @@ static int c15_cmd (char *line)
       a[1] = unbr (tok[2]);
       a[2] = n == 4 ? unbr (tok[3]) : (char *) "";
       fixture ();
-      if (n == 4)
+      if (!strcmp (a[0], "ed"))
+	;			/* ed_session () announces every command itself */
+      else if (n == 4)
 	vh_out ("call %s /c15/obj [%s] [%s]", a[0], a[1], a[2]);
       else
 	vh_out ("call %s /c15/obj [%s]", a[0], a[1]);
       if (!strcmp (a[0], "ed"))
 	{
-	  /* ed (file) by an interactive user, then the editor commands "w <b>" (when b starts with '/') and "Q" */
-	  char *b = a[2];
-	  a[2] = (char *) "";
-	  if (!ob->interactive)
-	    create_test_interactive (ob);
-#ifdef O_IS_WIZARD
-	  ob->flags |= O_IS_WIZARD;	/* unrestricted ed: "w <file>" is allowed */
-#endif
-	  command_giver = ob;
-	  fs_armed = 1;
-	  vh_apply_str (ob, "do_efun", 3, a, 0, 0);
-	  /* each editor command in its own error context: an error raised by the master inside "w" must not
-	   * skip the "Q" (note: ed_start () leaves the session allocated when check_valid_path () raises) */
-	  if (b[0] == '/')
-	    ed_do (ob, "w ", b);
-	  ed_do (ob, "Q", "");
-	  fs_armed = 0;
-	  command_giver = 0;
+	  /* ed (a) by an interactive user, then the editor command "w b" when b is given (and a silent "Q") */
+	  char cmds[4300];
+	  if (a[2][0])
+	    snprintf (cmds, sizeof cmds, "w:%s", a[2]);
+	  else
+	    cmds[0] = 0;
+	  ed_session (ob, a[1], cmds);
 	  return 1;
 	}
       fs_armed = 1;
